@@ -293,6 +293,7 @@ func (h *Hook) OnRetainMessage(cl *mqtt.Client, pk packets.Packet, r int64) {
 		Origin:      pk.Origin,
 		Properties: storage.MessageProperties{
 			PayloadFormat:          props.PayloadFormat,
+			PayloadFormatFlag:      props.PayloadFormatFlag,
 			MessageExpiryInterval:  props.MessageExpiryInterval,
 			ContentType:            props.ContentType,
 			ResponseTopic:          props.ResponseTopic,
@@ -329,6 +330,7 @@ func (h *Hook) OnQosPublish(cl *mqtt.Client, pk packets.Packet, sent int64, rese
 		Created:     pk.Created,
 		Properties: storage.MessageProperties{
 			PayloadFormat:          props.PayloadFormat,
+			PayloadFormatFlag:      props.PayloadFormatFlag,
 			MessageExpiryInterval:  props.MessageExpiryInterval,
 			ContentType:            props.ContentType,
 			ResponseTopic:          props.ResponseTopic,
